@@ -32,6 +32,7 @@ type caseD struct {
 	Raw     bool   `json:"raw_leaves"`
 	Base    int    `json:"base"`  // bytes in the file built with trickle.Layout
 	Extra   int    `json:"extra"` // bytes appended with trickle.Append
+	Then    []int  `json:"then,omitempty"` // further appends applied to the result (each checked; the violation belongs to the last one)
 }
 
 var (
@@ -128,10 +129,11 @@ func (s shapeInfo) features(c caseD) []string {
 }
 
 type baseFile struct {
-	c     caseD // Extra unused
-	ds    *memDag
-	root  cid.Cid
-	shape shapeInfo
+	ds      *memDag
+	root    cid.Cid
+	shape   shapeInfo
+	size    int  // bytes in the file
+	aligned bool // every part so far ended on a chunk boundary
 }
 
 func buildBase(c caseD) (*baseFile, *eng.Violation) {
@@ -154,7 +156,7 @@ func buildBase(c caseD) (*baseFile, *eng.Violation) {
 		v.Replay = c
 		return nil, v
 	}
-	return &baseFile{c: c, ds: ds, root: root.Cid(), shape: shapeOf(t, c.W)}, nil
+	return &baseFile{ds: ds, root: root.Cid(), shape: shapeOf(t, c.W), size: c.Base, aligned: aligned(c, c.Base)}, nil
 }
 
 type result struct {
@@ -163,11 +165,12 @@ type result struct {
 	equalFresh int // 1 equal, 0 different, -1 not compared
 }
 
-// appendCase appends c.Extra bytes to the base file and checks the result.
-func appendCase(b *baseFile, c caseD, withReader bool) (res result, out []*eng.Violation) {
+// appendCase appends n bytes to the file b (c describes the whole history for
+// reporting and replay) and checks the result. next is the resulting file.
+func appendCase(b *baseFile, c caseD, n int, withReader bool) (res result, next *baseFile, out []*eng.Violation) {
 	ctx := context.Background()
 	res.equalFresh = -1
-	all := input()[:c.Base+c.Extra]
+	all := input()[:b.size+n]
 	feat := b.shape.features(c)
 	fail := func(sym, op, detail string) {
 		v := eng.V(sym, op, fmt.Sprintf("%+v (base: %d leaves, %d root children): %s", c, b.shape.leaves, b.shape.rootChildren, detail), feat...)
@@ -181,7 +184,7 @@ func appendCase(b *baseFile, c caseD, withReader bool) (res result, out []*eng.V
 	}
 	var nroot ipld.Node
 	if pv := eng.Guard("Append", func() {
-		spl, e := chunk.FromString(bytes.NewReader(all[c.Base:]), c.Chunker)
+		spl, e := chunk.FromString(bytes.NewReader(all[b.size:]), c.Chunker)
 		if e != nil {
 			err = e
 			return
@@ -196,7 +199,7 @@ func appendCase(b *baseFile, c caseD, withReader bool) (res result, out []*eng.V
 	}); pv != nil {
 		pv.Features = featMap(feat)
 		pv.Replay = c
-		return res, append(out, pv)
+		return res, nil, append(out, pv)
 	}
 	if err != nil {
 		fail("append-error", "Append", err.Error())
@@ -236,7 +239,7 @@ func appendCase(b *baseFile, c caseD, withReader bool) (res result, out []*eng.V
 		}); pv != nil {
 			pv.Features = featMap(feat)
 			pv.Replay = c
-			return res, append(out, pv)
+			return res, nil, append(out, pv)
 		}
 		if err != nil {
 			fail("read-error", "DagReader", err.Error())
@@ -274,7 +277,7 @@ func appendCase(b *baseFile, c caseD, withReader bool) (res result, out []*eng.V
 	}
 	// informational differential: equals a fresh Layout of old||new?
 	// (only meaningful, and only computed, when the base ends on a chunk boundary)
-	if aligned(c) {
+	if b.aligned {
 		if fresh, err := layout(c, newMemDag(), all); err == nil {
 			if fresh.Cid().Equals(nroot.Cid()) {
 				res.equalFresh = 1
@@ -283,15 +286,18 @@ func appendCase(b *baseFile, c caseD, withReader bool) (res result, out []*eng.V
 			}
 		}
 	}
-	return res, out
+	if len(out) == 0 && !t.leaf {
+		next = &baseFile{ds: b.ds, root: nroot.Cid(), shape: shapeOf(t, c.W), size: len(all), aligned: b.aligned && aligned(c, n)}
+	}
+	return res, next, out
 }
 
-func aligned(c caseD) bool {
+func aligned(c caseD, n int) bool {
 	var cs int
 	if _, err := fmt.Sscanf(c.Chunker, "size-%d", &cs); err != nil || cs <= 0 {
 		return false
 	}
-	return c.Base%cs == 0
+	return n%cs == 0
 }
 
 func featMap(kv []string) map[string]string {
@@ -339,6 +345,7 @@ func unwrap(nd *dag.ProtoNode) ([]byte, error) {
 type item struct {
 	c      caseD // Extra unused
 	extras []int
+	then   []int // lengths of a second append, tried after every clean first append
 }
 
 func seq(lo, hi, step int) []int {
@@ -363,7 +370,7 @@ func buildItems(r *eng.Run) []item {
 		ex := seq(0, b.extraLeaves*b.cs, 1)
 		for _, raw := range []bool{false, true} {
 			for base := 0; base <= b.baseLeaves*b.cs; base++ {
-				items = append(items, item{caseD{W: b.w, Chunker: fmt.Sprintf("size-%d", b.cs), Raw: raw, Base: base}, ex})
+				items = append(items, item{caseD{W: b.w, Chunker: fmt.Sprintf("size-%d", b.cs), Raw: raw, Base: base}, ex, nil})
 			}
 		}
 		dims[fmt.Sprintf("w%d_size%d", b.w, b.cs)] = fmt.Sprintf("base 0..%d bytes x extra 0..%d bytes x {pb,raw}", b.baseLeaves*b.cs, b.extraLeaves*b.cs)
@@ -373,10 +380,21 @@ func buildItems(r *eng.Run) []item {
 	for _, w := range []int{2, 3} {
 		for _, raw := range []bool{false, true} {
 			for base := 0; base <= eng.Pick(r, 1500, 3000); base += step {
-				items = append(items, item{caseD{W: w, Chunker: "rabin-16-32-64", Raw: raw, Base: base}, seq(0, eng.Pick(r, 1500, 3000), step+2)})
+				items = append(items, item{caseD{W: w, Chunker: "rabin-16-32-64", Raw: raw, Base: base}, seq(0, eng.Pick(r, 1500, 3000), step+2), nil})
 			}
 		}
 	}
+	dims["w2_w3_rabin-16-32-64"] = fmt.Sprintf("base 0..%d step %d x extra 0..%d step %d bytes x {pb,raw}", eng.Pick(r, 1500, 3000), step, eng.Pick(r, 1500, 3000), step+2)
+	// (3) two appends in a row: base x first append x second append
+	d2 := eng.Pick(r, [3]int{24, 20, 20}, [3]int{60, 40, 40})
+	for _, w := range []int{2, 3} {
+		for _, raw := range []bool{false, true} {
+			for base := 0; base <= d2[0]; base++ {
+				items = append(items, item{caseD{W: w, Chunker: "size-2", Raw: raw, Base: base}, seq(1, d2[1], 1), seq(1, d2[2], 1)})
+			}
+		}
+	}
+	dims["double_append_w2_w3_size2"] = fmt.Sprintf("base 0..%d x first 1..%d x second 1..%d bytes x {pb,raw}; the second append runs only when the first result is well-formed", d2[0], d2[1], d2[2])
 	r.Set("pair_domains", dims)
 	return items
 }
@@ -410,10 +428,26 @@ func body(r *eng.Run) {
 			}
 			c := it.c
 			c.Extra = e
-			res, vs := appendCase(b, c, true)
+			res, next, vs := appendCase(b, c, e, true)
 			r.Eval(1)
 			for _, v := range vs {
 				r.Report(v)
+			}
+			// second append on top of a well-formed first one
+			if next != nil && e > 0 {
+				for _, e2 := range it.then {
+					c2 := c
+					c2.Then = []int{e2}
+					_, _, vs2 := appendCase(next, c2, e2, true)
+					r.Eval(1)
+					for _, v := range vs2 {
+						r.Report(v)
+					}
+					local["second_appends"]++
+					if len(vs2) == 0 {
+						local["second_appends_clean"]++
+					}
+				}
 			}
 			r.Outcome(fmt.Sprintf("layers=%d ok=%v fresh=%d", res.layers, len(vs) == 0, res.equalFresh))
 			if e > 0 && res.layers > 0 {
@@ -452,17 +486,25 @@ func replay(r *eng.Run, raw json.RawMessage) {
 	if err := json.Unmarshal(raw, &c); err != nil {
 		panic(err)
 	}
-	bc := c
-	bc.Extra = 0
-	b, v := buildBase(bc)
+	b, v := buildBase(c)
 	if v != nil {
 		r.Report(v)
 		return
 	}
-	_, vs := appendCase(b, c, true)
-	r.Eval(1)
-	for _, v := range vs {
-		r.Report(v)
+	steps := append([]int{c.Extra}, c.Then...)
+	for k, n := range steps {
+		_, next, vs := appendCase(b, c, n, true)
+		r.Eval(1)
+		if k == len(steps)-1 {
+			for _, v := range vs {
+				r.Report(v)
+			}
+			return
+		}
+		if next == nil {
+			return // earlier step no longer clean: nothing to replay
+		}
+		b = next
 	}
 }
 
